@@ -32,6 +32,68 @@ def run_shards(harness, argsets):
     return outs
 
 
+def _trace_session(args):
+    """a real interactive session (C07's driver) with CICADA_VERIF_TRACE on: returns the statuses the shell
+    actually consumed from the kernel"""
+    cicada, sseed, nactions = args
+    import c07
+    sb = common.Sandbox(cicada, "c06tr")
+    trace = os.path.join(sb.root, "wait.trace")
+    try:
+        rng = common.rng_for(sseed, "c06trace")
+        orig_env = sb.env
+
+        def env(extra=None, watch=None, budget=20000):
+            e = orig_env(extra, watch, budget)
+            e["CICADA_VERIF_TRACE"] = trace
+            return e
+        sb.env = env
+        ses = c07.Session(sb, rng, False)
+        try:
+            ses.run(nactions)
+        except (c07.Violation, c07.Inconclusive):
+            pass
+        finally:
+            ses.s.close()
+            import signal as _sig
+            for x in sb.records():
+                if x["name"] == "vp_job" and x["kind"] == "start":
+                    try:
+                        os.kill(x["pid"], _sig.SIGKILL)
+                    except OSError:
+                        pass
+        lines = open(trace).read().split("\n") if os.path.exists(trace) else []
+        return [l.split() for l in lines if l.strip()]
+    finally:
+        sb.close()
+
+
+def conforms(trace):
+    """can the virtual kernel of harness/src/c06.rs emit this sequence?  Per child: any number of
+    stopped/continued notifications, then at most one termination, nothing afterwards; ECHILD only when
+    every child seen so far has terminated."""
+    state = {}
+    for rec in trace:
+        if len(rec) < 5:
+            return "garbled record %r" % (rec,)
+        _shell, kind, pid, _val, _nohang = rec[:5]
+        if kind in ("stillalive", "other"):
+            continue
+        if kind == "error":
+            if rec[3] == "10" and any(v != "terminated" for v in state.values()):      # ECHILD
+                return "ECHILD while a child was not reaped"
+            continue
+        if state.get(pid) == "terminated":
+            return "status %s for already reaped child %s" % (kind, pid)
+        if kind in ("exited", "signaled"):
+            state[pid] = "terminated"
+        elif kind in ("stopped", "continued"):
+            state[pid] = kind
+        else:
+            return "unknown status kind %s" % kind
+    return None
+
+
 def run(tier, seed):
     harness = common.build_harness()
     rep = Report("C06", tier, seed)
@@ -82,6 +144,24 @@ def run(tier, seed):
     rep.assumptions = ["virtual kernel: one pending stop/continue notification per process, a continue overwrites an unreported "
                        "stop, termination always reported, waitpid(-1) returns any pending one (the explorer chooses)",
                        "fg/bg builtins are emulated without tcsetpgrp/killpg (their table operations are the real ones)"]
+    # conformance of the virtual kernel: real wait statuses recorded from live pty sessions must be
+    # sequences the model can emit
+    common.build_helpers()
+    cicada = common.build_cicada("debug")
+    nsess = 96 if tier == "thorough" else 24
+    traces = common.pmap(_trace_session, [(cicada, seed * 7919 + i, 12) for i in range(nsess)], chunksize=1)
+    validated = statuses = 0
+    for tr in traces:
+        if not tr:
+            continue
+        bad = conforms(tr)
+        statuses += len(tr)
+        if bad:
+            rep.violate("C06:kernel-model:real-trace-not-emittable-by-the-virtual-kernel", {"trace": tr[:40]}, {"why": bad})
+        else:
+            validated += 1
+    rep.extra["traces_validated_against_impl"] = validated
+    rep.extra["real_wait_statuses_in_those_traces"] = statuses
     rep.extra["phases"] = summary
     rep.extra["states"] = total_states
     rep.extra["transitions"] = total_exec
